@@ -20,6 +20,11 @@ def main(argv=None):
     p = sub.add_parser("replay")
     p.add_argument("path")
     sub.add_parser("setup")
+    dg = sub.add_parser("digests")
+    dg.add_argument("prop")
+    dg.add_argument("--n", type=int, default=100)
+    dg.add_argument("--workers", type=int, default=4)
+    dg.add_argument("--offset", type=int, default=0)
     sh = sub.add_parser("show")
     sh.add_argument("prop")
     sh.add_argument("index", type=int)
@@ -58,6 +63,9 @@ def main(argv=None):
         res.pop("final_case", None)
         print(json.dumps(res, default=str, indent=1)[:3000])
         return 0
+    if args.cmd == "digests":
+        from vf import selftest
+        return selftest.cli_digests(args.prop, args.n, args.workers, args.offset)
     if args.cmd == "setup":
         from vf import common as c
         src = c.use_repo()
